@@ -17,9 +17,11 @@ limitations under the License.
 package store
 
 import (
+	"bytes"
 	"context"
 	"crypto/sha256"
 	"encoding/binary"
+	"errors"
 	"fmt"
 	"time"
 
@@ -141,19 +143,68 @@ func (s *Snapshot) GetWithPrefixAndFilters(ctx context.Context, prefix []byte, n
 		return nil, nil, err
 	}
 
-	valRef, err = s.st.valueRefFrom(tx, hc, indexedVal)
-	if err != nil {
-		return nil, nil, err
-	}
-
 	for _, filter := range filters {
 		if filter == nil {
 			return nil, nil, fmt.Errorf("%w: invalid filter function", ErrIllegalArguments)
 		}
+	}
 
-		err = filter(valRef, s.ts)
+	var reader *tbtree.Reader
+	var filterErr error
+
+	defer func() {
+		if reader != nil {
+			reader.Close()
+		}
+	}()
+
+	for {
+		valRef, err = s.st.valueRefFrom(tx, hc, indexedVal)
 		if err != nil {
 			return nil, nil, err
+		}
+
+		filtered := false
+
+		for _, filter := range filters {
+			ferr := filter(valRef, s.ts)
+			if ferr != nil {
+				if filterErr == nil {
+					filterErr = ferr
+				}
+				filtered = true
+				break
+			}
+		}
+
+		if !filtered {
+			break
+		}
+
+		// the first entry with the prefix was filtered out (e.g. deleted or expired),
+		// following entries sharing the prefix must be considered as well
+		if reader == nil {
+			reader, err = s.snap.NewReader(tbtree.ReaderSpec{
+				SeekKey: key,
+				Prefix:  prefix,
+			})
+			if err != nil {
+				return nil, nil, err
+			}
+		}
+
+		for {
+			key, indexedVal, tx, hc, err = reader.Read()
+			if errors.Is(err, tbtree.ErrNoMoreEntries) {
+				return nil, nil, filterErr
+			}
+			if err != nil {
+				return nil, nil, err
+			}
+
+			if neq == nil || !bytes.Equal(key, neq) {
+				break
+			}
 		}
 	}
 
